@@ -224,6 +224,41 @@ func checkC10(c c10Case) *evid.Fail {
 			return evid.F(sig, "template %q with %s rendered %q, the reference semantics give %q", c.Template, sortedMap(m), got, want.String())
 		}
 	}
+	// the other entry points agree: constructor from text, token-list entry, default variables + Evaluate()
+	if len(c.Maps) > 0 {
+		m := c.Maps[0]
+		var want strings.Builder
+		mRender(c.Tree, m, &want)
+		var r1, r2, r3 string
+		var e1, e2, e3 error
+		if g := guard(func() {
+			var t1 *mustache.MustacheTemplate
+			if t1, e1 = mustache.NewMustacheTemplateFromString(c.Template); e1 == nil {
+				r1, e1 = t1.EvaluateWithVariables(m)
+			}
+			t2 := mustache.NewMustacheTemplate()
+			if e2 = t2.SetOriginalTokens(t.OriginalTokens()); e2 == nil {
+				r2, e2 = t2.EvaluateWithVariables(m)
+			}
+			t3 := mustache.NewMustacheTemplate()
+			cp := map[string]string{}
+			for k, v := range m {
+				cp[k] = v
+			}
+			t3.SetDefaultVariables(cp)
+			if e3 = t3.SetTemplate(c.Template); e3 == nil {
+				r3, e3 = t3.Evaluate()
+			}
+		}); g != nil {
+			g.Msg = fmt.Sprintf("alternative entry points for %q: %s", c.Template, g.Msg)
+			return g
+		}
+		for i, r := range []string{r1, r2, r3} {
+			if err := []error{e1, e2, e3}[i]; err != nil || r != want.String() {
+				return evid.F("entry-points-differ", "template %q with %s: entry point #%d (FromString / SetOriginalTokens / defaults+Evaluate) gives %q (%v), the reference semantics give %q", c.Template, sortedMap(m), i+1, r, err, want.String())
+			}
+		}
+	}
 	return nil
 }
 
